@@ -75,6 +75,8 @@ type mgCmd struct {
 	Cost, Origin, Flags             int
 	Strat, StratName, StratSuffix   string
 	Cap, Mtu                        string
+	FlagsMask                       string // faces/update: "", "both", "flags", "mask"
+	Short                           int    // 1: the name ends after /nfd, 2: after the module (no verb)
 }
 type mgConf struct {
 	Algo string
@@ -276,7 +278,7 @@ func mgmtExec(t *testing.T, w *traceWriter, conf mgConf, next func(e int) *mgCmd
 					break
 				}
 				c := map[string]any{"hasParams": g.HasParams, "hasName": g.HasName, "faceId": -1, "cost": g.Cost, "origin": g.Origin, "flags": g.Flags,
-					"strat": g.Strat, "stratName": g.StratName, "capacity": -1, "mtu": -1, "name": []string{}}
+					"strat": g.Strat, "stratName": g.StratName, "capacity": -1, "mtu": -1, "name": []string{}, "flagsMask": "none"}
 				args := &mgmtdef.ControlArgs{}
 				mod, verb := g.Mod, g.Verb
 				if g.HasName {
@@ -317,6 +319,17 @@ func mgmtExec(t *testing.T, w *traceWriter, conf mgConf, next func(e int) *mgCmd
 					args.Mtu = utils.IdPtr(mv)
 					c["mtu"] = int(min(mv, 100000))
 				}
+				switch g.FlagsMask {
+				case "both":
+					args.Flags, args.Mask = utils.IdPtr(uint64(1)), utils.IdPtr(uint64(1))
+				case "flags":
+					args.Flags = utils.IdPtr(uint64(1))
+				case "mask":
+					args.Mask = utils.IdPtr(uint64(1))
+				}
+				if g.FlagsMask != "" {
+					c["flagsMask"] = g.FlagsMask
+				}
 				switch g.Strat {
 				case "ok":
 					args.Strategy = &mgmtdef.Strategy{Name: nm("/localhost/nfd/strategy/" + g.StratName + g.StratSuffix)}
@@ -338,7 +351,15 @@ func mgmtExec(t *testing.T, w *traceWriter, conf mgConf, next func(e int) *mgCmd
 				}
 				c["pfx"], c["local"], c["inface"], c["mod"], c["verb"] = pfx, local, src.id, mod, verb
 				name := nm("/" + pfx + "/nfd/" + mod + "/" + verb)
-				if g.HasParams {
+				if g.Short == 1 {
+					name = nm("/" + pfx + "/nfd")
+					c["mod"], c["verb"] = "", ""
+				} else if g.Short == 2 {
+					name = nm("/" + pfx + "/nfd/" + mod)
+					c["verb"] = ""
+				}
+				if g.Short > 0 {
+				} else if g.HasParams {
 					p := &mgmtdef.ControlParameters{Val: args}
 					name = append(name, enc.NewBytesComponent(enc.TypeGenericNameComponent, p.Encode().Join()))
 				} else if g.Junk {
@@ -465,6 +486,7 @@ func mgRandom(rng *rand.Rand) *mgCmd {
 		if g.Verb == "destroy" { // the second target face, one that does not exist, or none named; never the faces the harness talks through
 			g.FaceRole = pickS("real1", "real1", "missing", "none")
 		}
+		g.FlagsMask = pickS("", "", "", "both", "flags", "mask")
 		g.Mtu = pickS("0", "1", "50", "63", "64", "127", "128", "1500", "8800", "8801", "4294967296", "9223372036854775808", "18446744073709551615")
 	default:
 		if rng.Intn(8) == 0 {
@@ -494,6 +516,9 @@ func mgRandom(rng *rand.Rand) *mgCmd {
 		g.HasParams = false
 		g.Junk = rng.Intn(2) == 0
 	}
+	if rng.Intn(25) == 0 {
+		g.Short, g.HasParams, g.HasName = 1+rng.Intn(2), false, false
+	}
 	switch rng.Intn(8) {
 	case 0:
 		g.Pfx = "localhop"
@@ -507,11 +532,85 @@ func mgRandom(rng *rand.Rand) *mgCmd {
 	return g
 }
 
+// mgMatrix is the systematic part: every module/verb once valid and once with each kind of missing or malformed
+// parameters, names too short to carry a module or a verb in between, every command followed later by valid ones
+func mgMatrix() []*mgCmd {
+	base := func(mod, verb string) *mgCmd {
+		g := &mgCmd{Mod: mod, Verb: verb, HasParams: true, HasName: true, Cost: -1, Origin: -1, Flags: -1, Pfx: "localhost", Local: true, FaceRole: "real0"}
+		switch mod {
+		case "rib":
+			g.Name = "/app/x"
+		case "fib":
+			g.Name = "/fib/a"
+		case "strategy-choice":
+			g.Name, g.FaceRole = "/st/q", "none"
+			if verb == "set" {
+				g.Strat, g.StratName = "ok", "multicast"
+			}
+		case "cs":
+			g.HasName, g.Cap, g.FaceRole = false, "100", "none"
+		case "faces":
+			g.HasName, g.Mtu = false, "1400"
+			if verb == "destroy" {
+				g.FaceRole, g.Mtu = "real1", ""
+			}
+		}
+		return g
+	}
+	var out []*mgCmd
+	verbs := [][2]string{{"rib", "register"}, {"fib", "add-nexthop"}, {"strategy-choice", "set"}, {"cs", "config"}, {"faces", "update"},
+		{"rib", "unregister"}, {"fib", "remove-nexthop"}, {"strategy-choice", "unset"}, {"faces", "destroy"}, {"rib", "bogus"}, {"faces", "bogus"}, {"bogus", "bogus"}}
+	for _, mv := range verbs {
+		for kind := 0; kind < 8; kind++ {
+			g := base(mv[0], mv[1])
+			switch kind {
+			case 1:
+				g.HasParams = false
+			case 2:
+				g.HasParams, g.Junk = false, true
+			case 3:
+				if !g.HasName {
+					continue
+				}
+				g.HasName = false
+			case 4:
+				g.FaceRole = "missing"
+			case 5:
+				g.Short, g.HasParams, g.HasName = 2, false, false
+			case 6:
+				g.Local = false
+			case 7:
+				g.Pfx = "localhop"
+			}
+			out = append(out, g)
+			if kind == 5 {
+				s1 := base(mv[0], mv[1])
+				s1.Short, s1.HasParams, s1.HasName = 1, false, false
+				out = append(out, s1)
+			}
+		}
+		out = append(out, base("rib", "register")) // the node still serves a valid command
+	}
+	return out
+}
+
 func TestMgmtGen(t *testing.T) {
 	w := newTrace("mgmt.ndjson")
 	defer w.Close()
 	nEx, nEv := envInt("VERIF_N", 40), envInt("VERIF_LEN", 25)
 	total := 0
+	for k, conf := range []mgConf{{"nametree", false}, {"hashtable", true}} {
+		m := mgMatrix()
+		if k == 1 { // the same matrix in another order
+			rand.New(rand.NewSource(verifSeed())).Shuffle(len(m), func(i, j int) { m[i], m[j] = m[j], m[i] })
+		}
+		total += mgmtExec(t, w, conf, func(e int) *mgCmd {
+			if e >= len(m) {
+				return nil
+			}
+			return m[e]
+		})
+	}
 	for tr := 0; tr < nEx; tr++ {
 		rng := rand.New(rand.NewSource(verifSeed()*9176 + int64(tr)))
 		total += mgmtExec(t, w, mgConf{Algo: []string{"nametree", "hashtable"}[tr%2], Lh: tr%4 >= 2}, func(e int) *mgCmd {
